@@ -5,7 +5,7 @@ import sqlparse
 from sqlparse import sql, tokens as T
 
 RULE = ('queries built from known parts: WHERE condition x every closing clause (GROUP BY, ORDER BY, LIMIT, UNION, EXCEPT, HAVING, RETURNING, INTO, none, end of parenthesis) x nesting in subqueries; '
-        'select/FROM lists of written items; calls f(args); CASE with written WHEN/THEN/ELSE parts; comparisons with written operands; typed literals; non-trivial = distinct query text')
+        'second pass: WHERE inside procedural blocks; every dictionary word as the name of a call (with a gap where the lexer types it as a name); list items of 24 kinds with aliases; exactly one TypedLiteral node per literal; select/FROM lists of written items; calls f(args); CASE with written WHEN/THEN/ELSE parts; comparisons with written operands; typed literals; non-trivial = distinct query text')
 ASSUMPTIONS = ['lexer/grouping/accessor models tied by S-TREE/S-ACC on the generated queries and by DOMAIN(clause) on the table of the in-context theorems (every skeleton, pinned or not, on the real code)']
 PARTIAL = ['Where extent: theorem for every input. Lists / calls / CASE / comparisons / typed literals in context: parametricity + table — the table-independent core is proved in the quick tier, the 290-skeleton table is evaluated by the compiled driver in the quick tier and decided by the kernel in the thorough tier (SqlPropsSlow.C13Table, about 22 min CPU); shapes outside the table (longer lists, deeper nesting, other whitespace token counts) are checked on the real code by the oracle',
            'known findings KF-C13-1 (single expression argument), KF-C13-2 (literal with implicit alias / bare parenthesis as a list item), KF-C13-3 (typed literal as a list item) are pinned in the table as decided negative facts']
@@ -172,9 +172,13 @@ def check_typed(ctx, rng):
     ctx.evaluations += 1
     ctx.count('typed_literal')
     ctx.nontrivial.add(text)
-    tl = [str(x) for x in nodes_of(stmt, sql.TypedLiteral)]
+    tls = nodes_of(stmt, sql.TypedLiteral)
+    tl = [str(x) for x in tls]
     if tl.count(lit) < 2:
         ctx.fail('typed literal is not one TypedLiteral node', text, observed=tl, required=[lit, lit])
+    elif len(tls) != 2 or any(isinstance(ch, sql.TypedLiteral) for x in tls for ch in x.tokens):
+        # ONE node per literal: not a TypedLiteral wrapped in another one (INTERVAL '1' + unit)
+        ctx.fail('typed literal is not ONE TypedLiteral node (nested / additional TypedLiteral nodes)', text, observed=tl, required=[lit, lit])
     return text
 
 
@@ -205,9 +209,105 @@ def where_sweep(ctx):
                 ctx.fail('Where extent (dictionary sweep): the clause %s at this word' % ('must end' if w in WHERE_CLOSERS else 'must not end'), text, observed=ws_, required=want)
 
 
+# --- second pass ---------------------------------------------------------------------------------------------------------------------------
+BLOCK_CONTEXTS = ['CREATE PROCEDURE p() BEGIN %s; END', 'create procedure p() begin x := 1; %s; y := 2; end', 'BEGIN IF x > 0 THEN %s; END IF; END', 'CREATE FUNCTION f() RETURNS int BEGIN IF a THEN %s; END IF; RETURN 1; END',
+                  'CREATE PROCEDURE p() BEGIN FOR r IN c LOOP %s; END LOOP; END', 'BEGIN %s; END', 'CREATE TRIGGER tr BEFORE INSERT ON t FOR EACH ROW BEGIN %s; END', 'BEGIN BEGIN %s; END; END',
+                  'CREATE PROCEDURE p() BEGIN IF a THEN IF b THEN %s; END IF; END IF; END', 'select case when a then (%s) end from t2']
+ITEM_KINDS = ['NULL', 'null', '1', "'s'", '?', ':p1', 'f(1)', 'f(a, b)', 'a + 1', 'a * b - 1', '(a)', '(a + 1)', 'CASE WHEN a THEN 1 END', 'a = 1', "DATE '2020-01-01'", 'x::int', 'arr[1]', 'count(*)', 't.c',
+              '"Q x"', 'sch.tbl.c', 'sum(x) OVER (PARTITION BY p)', 'a || b', 'coalesce(a, 0)']
+
+
+def second_pass(ctx):
+    from common import load_known_findings
+    registered = {k.get('id') for k in load_known_findings()}
+    rng = ctx.rng
+    pend5 = [0]
+    # (1) WHERE inside procedural blocks (Begin / If / For groups): group_where has to descend into them like into any other group
+    for bc in BLOCK_CONTEXTS:
+        for closer in ['', 'ORDER BY a', 'GROUP BY a', 'LIMIT 5', 'UNION SELECT 1', 'INTO v']:
+            c = rng.choice(['a = 1', "b1 <> 's'", 't.c >= 42 AND col_x IS NOT NULL'])
+            inner = 'SELECT x FROM t WHERE ' + c + ((' ' + closer) if closer else '')
+            text = bc % inner
+            ctx.evaluations += 1
+            ctx.count('second:block_where')
+            try:
+                ws = [str(n) for st in sqlparse.parse(text) for n in nodes_of(st, sql.Where)]
+            except Exception as e:
+                ctx.fail('parse raised ' + type(e).__name__, text, observed=repr(e), required='tree')
+                continue
+            if not any(x.rstrip().upper().startswith('WHERE') and x.rstrip()[5:].strip() == c for x in ws):
+                if not closer and any(x.rstrip().upper().startswith('WHERE') and x.rstrip()[5:].strip().startswith(c + ';') for x in ws):
+                    # proposed KF-C13-5: without a closing keyword the clause runs through the `;` to the end of the block (following statements and END included)
+                    if 'KF-C13-5' not in registered:
+                        pend5[0] += 1
+                        continue
+                    ctx.fail('Where node runs through the semicolon that ends its statement inside a block', text, observed=ws, required='WHERE ' + c)
+                    continue
+                ctx.fail('Where node does not span exactly WHERE … up to the next closing clause (query inside a procedural block)', text, observed=ws, required='WHERE ' + c)
+    # (2) every dictionary word as the name of a call: directly before `(` (the lexer makes it a Name) and, for the words the lexer types as names
+    #     (Name.Builtin …), also with a gap before `(`
+    import props.C18 as C18
+    from sqlparse import lexer as _lexer
+    for w in C18.all_dictionary_words():
+        if not w.isidentifier() or w in ('AS', 'CASE', 'FROM', 'IN', 'USING', 'VALUES'):
+            continue
+        spell = w if rng.random() < 0.5 else w.lower()
+        forms = [spell + '(a, b1)']
+        if list(_lexer.tokenize(w + ' (a)'))[0][0] in T.Name:
+            forms += [spell + ' (a, b1)', spell + '\n(a, b1)']
+        for call in forms:
+            text = 'SELECT ' + call + ' FROM t'
+            ctx.evaluations += 1
+            ctx.count('second:call_name')
+            try:
+                fs = [f for f in nodes_of(sqlparse.parse(text)[0], sql.Function) if str(f) == call]
+                got = [[str(p_) for p_ in f.get_parameters()] for f in fs]
+            except Exception as e:
+                got = 'raised ' + type(e).__name__
+            if got != [['a', 'b1']]:
+                ctx.fail('a call with this name is not one Function yielding the written arguments', text, observed=got, required=['a', 'b1'])
+    # (3) list items of every kind with an alias (AS in both casings; implicit for the group kinds)
+    for it in ITEM_KINDS:
+        forms = [it + ' AS al1', it + ' as al1']
+        if it[-1] in ')]' or it.endswith('END') or ' ' in it and it[0] not in "'0123456789D" and it.upper() != 'NULL':
+            forms.append(it + ' al1')
+        for f in forms:
+            for items in ([f, 'b1'], ['a', f], ['a', f, 'col_x AS y']):
+                text = 'SELECT ' + ', '.join(items) + ' FROM t'
+                ctx.evaluations += 1
+                ctx.count('second:aliased_item')
+                try:
+                    st = sqlparse.parse(text)[0]
+                    lists = [[str(i) for i in il.get_identifiers()] for il in st.tokens if isinstance(il, sql.IdentifierList)]
+                except Exception as e:
+                    lists = 'raised ' + type(e).__name__
+                if lists != [items]:
+                    ctx.fail('select list is not one IdentifierList yielding the written items (aliased item)', text, observed=lists, required=items)
+    # (4) comments next to the operands of a comparison (proposed KF-C13-4: align_comments appends a following comment to the Comparison, `right` is the comment)
+    pending = 0
+    for cm in ['/* c */', '-- c\n', '/*+ h */']:
+        for text, l, r in [('SELECT x FROM t WHERE a = 1 %s AND b1 = 2' % cm, 'a', '1'), ('SELECT x FROM t WHERE a = 1 %s ORDER BY x' % cm, 'a', '1'), ('SELECT CASE WHEN a = b1 %s THEN 2 END FROM t' % cm, 'a', 'b1'),
+                           ('SELECT x FROM (SELECT y FROM u WHERE t.c >= 42 %s) s' % cm, 't.c', '42')]:
+            ctx.evaluations += 1
+            ctx.count('second:comment_after_comparison')
+            cmps = [(str(x.left), str(x.right)) for x in nodes_of(sqlparse.parse(text)[0], sql.Comparison)]
+            if (l, r) not in cmps:
+                if 'KF-C13-4' not in registered:
+                    pending += 1
+                    continue
+                ctx.fail('no Comparison with the written operands (comment after the comparison)', text, observed=cmps, required=[l, r])
+    if pend5[0]:
+        ctx.dist['pending-known-finding:KF-C13-5'] = pend5[0]
+        ctx.notes.append('KF-C13-5 (proposed, not registered): %d witnesses — inside a block a WHERE clause without closing keyword runs through the `;`' % pend5[0])
+    if pending:
+        ctx.dist['pending-known-finding:KF-C13-4'] = pending
+        ctx.notes.append('KF-C13-4 (proposed, not registered in known_findings.json): %d witnesses — a comment after a comparison becomes its `right`' % pending)
+
+
 def run(ctx):
     rng = ctx.rng
     where_sweep(ctx)
+    second_pass(ctx)
     texts = []
     fns = [check_where, check_list, check_call, check_case, check_typed]
     for it in range(ctx.n(1500, 30000)):
@@ -290,6 +390,10 @@ def classify(f, kf):
     """known findings by mechanism.  KF-C13-3 (a typed literal as a list item breaks the IdentifierList) puts the arguments of a call outside any
     list; KF-C13-1 (outside a list get_parameters collects only Function/Identifier/TypedLiteral children and Literal tokens) then drops the
     arguments that are bare keyword/placeholder tokens: `fn(:p1, DATE '2020-01-01')` -> ["DATE '2020-01-01'"]"""
+    if any(k['id'] == 'KF-C13-4' for k in kf) and str(f.get('what', '')).endswith('(comment after the comparison)'):
+        return 'KF-C13-4'
+    if any(k['id'] == 'KF-C13-5' for k in kf) and str(f.get('what', '')).startswith('Where node runs through the semicolon'):
+        return 'KF-C13-5'
     if not any(k['id'] == 'KF-C13-1' for k in kf) or not str(f.get('what', '')).startswith('Function.get_parameters() does not yield'):
         return None
     try:
